@@ -560,6 +560,9 @@ func literalValue(r *rng) string {
 
 type qualGen struct {
 	allowFindings bool
+	// names this record already uses as unknown (written quoted): they must not be
+	// registered as another type by a later feature of the same record
+	unk map[string]bool
 }
 
 func (g qualGen) props(r *rng, reg *registry) gts.Props {
@@ -586,7 +589,7 @@ func (g qualGen) props(r *rng, reg *registry) gts.Props {
 			name = r.pick(c01UnknownNames)
 			mk = quotedValue
 			// an unknown name may have been learned before, as any type
-			if qualifierType(name, *reg) == seqio.UnknownQualifier {
+			if qualifierType(name, *reg) == seqio.UnknownQualifier && !g.unk[name] {
 				switch r.intn(6) {
 				case 0:
 					reg.l = appendNew(reg.l, name)
@@ -601,6 +604,10 @@ func (g qualGen) props(r *rng, reg *registry) gts.Props {
 				mk = literalValue
 			case seqio.ToggleQualifier:
 				mk = func(*rng) string { return "\n" }
+			case seqio.UnknownQualifier:
+				if g.unk != nil {
+					g.unk[name] = true
+				}
 			}
 		}
 		if used[name] {
@@ -631,6 +638,7 @@ func appendNew(xs []string, x string) []string {
 var c01Keys = []string{"source", "gene", "CDS", "misc_feature", "exon", "a", "x23456789012345", "rep_origin", "_k", "x234567890123456", "averyveryverylongkeyname"}
 
 func (g qualGen) table(r *rng, L int, maxF int, reg *registry) gts.FeatureSlice {
+	g.unk = map[string]bool{}
 	n := r.intn(maxF + 1)
 	var ff gts.FeatureSlice
 	for i := 0; i < n; i++ {
@@ -1087,9 +1095,9 @@ func isSnakeWord(s string) bool {
 
 func propC01(r *Run) {
 	quick := r.tier != "thorough"
-	nGen, nFind, nPipe, nDamage, nStream, nQual := 700, 150, 250, 900, 60, 500
+	nGen, nFind, nPipe, nDamage, nStream, nQual := 2000, 400, 700, 2500, 150, 1200
 	if !quick {
-		nGen, nFind, nPipe, nDamage, nStream, nQual = 8000, 1500, 3000, 10000, 600, 5000
+		nGen, nFind, nPipe, nDamage, nStream, nQual = 12000, 2500, 5000, 15000, 1000, 8000
 	}
 	r.exhaustive = true
 	r.op("gb.defaults")
